@@ -302,7 +302,7 @@ def run(tier: str) -> int:
     loader_cases(r, ords)
     missing_spec_search(r)
     system_search(r, rnd, ["2002-06-01"] + popgen.DATES_QUICK if quick else
-                  ["2001-01-01", "2002-06-01", "2003-12-31", "2005-01-01", "2010-01-01"] + popgen.DATES_2015,
+                  ["2002-06-01", "2003-12-31", "2005-01-01", "2010-01-01"] + popgen.DATES_2015,
                   4 if quick else 20)
     r.sample({"wrapper": {"base": 36, "direction": "down", "offset": 18, "x": 100.0, "result": 90.0}})
     return r.finish()
